@@ -608,6 +608,10 @@ func (w *World) exec(op *Op) {
 		w.opPersist(op)
 	case "copersist":
 		w.opCoPersist(op)
+	case "fill":
+		w.opFill(op)
+	case "replica":
+		w.opReplica(op)
 	case "reload":
 		w.opReload(op)
 	case "restart":
@@ -1063,6 +1067,35 @@ func (w *World) opBulk(op *Op) {
 	}
 	w.st.Probes["bulk"]++
 	w.sanity(t, "bulk")
+}
+
+// opFill inserts absent keys (ascending key index, starting at op.Key) until the tree holds
+// exactly op.N entries: sizes that sit exactly on a grow / shrink threshold.
+func (w *World) opFill(op *Op) {
+	t := w.tree(op.T)
+	if t == nil || t.unsure {
+		return
+	}
+	for k := op.Key; k < w.cfg.U && t.model.Len() < op.N; k++ {
+		if _, ok := t.model.Get(k); ok {
+			continue
+		}
+		v := k % 50
+		r := guard(func() error { return t.m.Insert(ctx, w.kd.Key(k), w.vd.Val(v)) })
+		if r.bad() {
+			w.failFor("C01", "insert-fails", "fill Insert(key#%d): %s", k, r)
+			return
+		}
+		t.modKeys[k] = true
+		t.model.Put(k, v)
+	}
+	if int(t.m.Height()) != t.baseHeight {
+		t.hChanged = true
+	}
+	if t.model.Len() == op.N {
+		w.st.Probes["filled-to-threshold-size"]++
+	}
+	w.sanity(t, "fill")
 }
 
 func (w *World) addVersion(v *Version) int {
